@@ -177,6 +177,42 @@ fn main() {
         t
     });
 
+    // S2c: near-multiples of LONG divisors: a = q*b + r with the remainder r below / at / above one unit of the
+    // divisor's last place (r = d*10^-j for every j up to 40, and r = d*10^j below |b|), divisors on both sides
+    // of one and two machine words; the dividend carries the finer scale, and the mirrored arrangement
+    let two64 = BigInt::from(1) << 64usize;
+    let long_divs: Vec<BigInt> = vec![&two64 - 1, &two64 + 1, pow10(19) + 7, big("12345678901234567890123"), (&two64 * &two64) + 5, big(&filler_digits(run.seed(), 40, 40))];
+    run.bound("S2c_long_divisors", json!(long_divs.iter().map(|b| b.to_string()).collect::<Vec<_>>()));
+    run.par("S2c near-multiples of long divisors", 41, |j| {
+        let mut t = Tally::default();
+        let pj = pow10(j as u64);
+        for b0 in long_divs.iter() {
+            for q in [BigInt::from(1), BigInt::from(3), BigInt::from(100_001), pow10(20) + 3] {
+                for d in [1i64, 9, -1] {
+                    for sb in [0i128, -2, 3] {
+                        for (sq, sbn) in [(1, 1), (-1, 1), (1, -1)] {
+                            // a = q*b + d*10^-j in units of b's last place
+                            let b = Dec { n: b0 * sbn, s: sb };
+                            let a = Dec { n: (&q * b0 * &pj + d) * sq, s: sb + j as i128 };
+                            t.states += 1;
+                            t.nontrivial += 5;
+                            for v in check(&fs, &a, &b, &bd(&a), &bd(&b), &mut t) {
+                                run.report(v);
+                            }
+                            // mirrored: the divisor carries the finer scale (written-out zeros)
+                            let b2 = Dec { n: b0 * &pj * sbn, s: sb + j as i128 };
+                            let a2 = Dec { n: (&q * b0 + d) * sq, s: sb };
+                            for v in check(&fs, &a2, &b2, &bd(&a2), &bd(&b2), &mut t) {
+                                run.report(v);
+                            }
+                        }
+                    }
+                }
+            }
+        }
+        t
+    });
+
     // S3: exact multiples, operands equal up to representation, |a| < |b|
     let mut s3: Vec<(Dec, Dec)> = vec![];
     for n in [1i64, 3, 12, 125, -7, 999] {
